@@ -161,8 +161,9 @@ pub fn parse_report(txt: &str) -> Report {
         }
         let key: String = l.split(|c: char| c == '=' || c == ':').next().unwrap_or("").trim().to_string();
         // `Suministrada 12.00:` carries its number before the colon
-        let key = if key.starts_with("Suministrada") { "Suministrada".to_string() } else { key };
-        r.scalars.insert(key, nums);
+        let key = if key.strip_prefix("Suministrada ").map(|r| r.trim().parse::<f64>().is_ok()).unwrap_or(false) { "Suministrada".to_string() } else { key };
+        // the first line under a label is the template's; sections appended later may reuse a word
+        r.scalars.entry(key).or_insert(nums);
     }
     r
 }
